@@ -65,6 +65,10 @@ class AsyncioAdapterQueues:
         self.init_state = init_state
         self.ticks: list[WorkflowTick] = []
         self.state_store = state_store
+        # Set once a consumer has taken the run's terminal StopEvent off the
+        # publish queue: from then on the stream is over, whether or not the
+        # `complete` task has finished yet.
+        self.stream_finished = False
 
     # created lazily via cached_property for Python 3.14+ compatibility (they require a running event loop)
     @functools.cached_property
@@ -162,13 +166,20 @@ class ExternalAsyncioAdapter(
 
     async def stream_published_events(self) -> AsyncGenerator[Event, None]:
         async with self._queues.stream_lock:
-            if self._queues.complete.done() and self._queues.publish_queue.empty():
+            # The terminal event is published (and can be taken) before the
+            # `complete` task is done, so `complete.done()` alone cannot tell a
+            # consumer that gets the lock in between that nothing will follow.
+            if (
+                self._queues.stream_finished or self._queues.complete.done()
+            ) and self._queues.publish_queue.empty():
                 raise WorkflowRuntimeError(
                     "Event stream already consumed. "
                     "Events can only be streamed once per workflow run."
                 )
             while True:
                 item = await self._queues.publish_queue.get()
+                if isinstance(item, StopEvent):
+                    self._queues.stream_finished = True
                 yield item
                 if isinstance(item, StopEvent):
                     break
